@@ -644,6 +644,34 @@ def creation_src(kind, sc, cls_name, n, rng):
     raise ValueError(kind)
 
 
+DIALECT_CODEC_SWEEP = [
+    "class _Dl{n}(Dialect):\n    serialize_by_alias = True\n_e{n} = BasicEncoder({T}, default_dialect=_Dl{n}); _d{n} = BasicDecoder({T}, default_dialect=_Dl{n})",
+    "class _Dl{n}(Dialect):\n    serialize_by_alias = False\n    omit_none = True\n_e{n} = BasicEncoder({T}, default_dialect=_Dl{n}); _d{n} = BasicDecoder({T}, default_dialect=_Dl{n})",
+    "class _Dl{n}(Dialect):\n    serialization_strategy = {{date: {{'serialize': date.toordinal, 'deserialize': date.fromordinal}}, "
+    "int: {{'serialize': str, 'deserialize': int}}, str: {{'serialize': (lambda s: s[::-1]), 'deserialize': (lambda s: s[::-1])}}}}\n"
+    "_e{n} = BasicEncoder({T}, default_dialect=_Dl{n}); _d{n} = BasicDecoder({T}, default_dialect=_Dl{n})",
+    "_e{n} = ORJSONEncoder({T}); _d{n} = ORJSONDecoder({T})",
+    "_e{n} = TOMLEncoder({T}); _d{n} = TOMLDecoder({T})",
+    "_e{n} = MessagePackEncoder({T}); _d{n} = MessagePackDecoder({T})",
+]
+
+
+def frame_sweep_creations(sc):
+    """for every class whose Config changes how/when it is compiled: every kind of codec that carries a default dialect,
+    created AND used on an instance (deterministic counterpart of the random histories)"""
+    out = []
+    n = 100
+    for c in sc.classes:
+        if not c.extra:
+            continue
+        for tmpl in DIALECT_CODEC_SWEEP:
+            stmt = tmpl.format(n=n, T=c.name)
+            out.append(with_uses(stmt, [f"_x_enc{n} = _e{n}.encode(_x_{c.name})", f"_d{n}.decode(_x_enc{n})",
+                                        f"_d{n}.decode(_w_{c.name})"]))
+            n += 1
+    return out
+
+
 def oracle_frame(ctx, sc, src, vals_by_root, steps):
     """results of existing classes and existing codec objects before == after creating further
     codecs and subclasses (fresh module so that nothing is pre-created)"""
@@ -683,10 +711,19 @@ def oracle_frame(ctx, sc, src, vals_by_root, steps):
                     probes.append((f"existing BasicDecoder({L.py_ty(sc.roots[i])}).decode(d)", (lambda dec=dec, w=w: dec.decode(w)), i, r[1]))
         before = [res_key(L.call(p[1])) for p in probes]
         log = []
-        for n in range(steps):
+        sweep = frame_sweep_creations(sc)
+        for n in range(steps + len(sweep)):
             kind = ctx.rng.choice(CREATIONS)
             cn = ctx.rng.choice([c.name for c in sc.classes])
+            # classes whose Config changes HOW/WHEN methods are compiled are the interesting targets of creations that
+            # compile with another (default) dialect: half of the steps aim there
+            special = [c.name for c in sc.classes if c.extra]
+            if special and n % 2 == 0:
+                cn = ctx.rng.choice(special)
+                kind = ctx.rng.choice(["codec-strategy-dialect", "codec-format", "codec-dialect", "subclass-mixin"])
             stmt = creation_src(kind, sc, cn, n, ctx.rng)
+            if n >= steps:
+                kind, stmt = "sweep:codec-with-default-dialect", sweep[n - steps]
             try:
                 exec(stmt, mod.__dict__)
                 log.append(stmt)
@@ -991,7 +1028,7 @@ def run(ctx: vlib.Ctx):
                 oracle_compositional(ctx, sc, mod, src, i, exact_vals[:3])
 
     # ---------------- oracle 3: frame (fresh modules)
-    fsel = loaded if not ctx.quick() else loaded[:5] + loaded[5::2]
+    fsel = loaded if not ctx.quick() else [x for k, x in enumerate(loaded) if k < 5 or k % 2 == 1 or any(c.extra for c in x[0].classes)]
     for (sc, vals, src, mod) in fsel:
         by_root = {}
         for (i, v, info) in vals:
